@@ -19,6 +19,7 @@ import (
 	"math/rand"
 	"os"
 	"path/filepath"
+	"runtime/pprof"
 	"strings"
 	"sync/atomic"
 	"syscall"
@@ -458,6 +459,13 @@ func (r *run) deliver(timeout time.Duration) bool {
 	if g == nil {
 		return false
 	}
+	// not while a reorg notification is on its way to the driver (see detWrap.relay)
+	for t0 := time.Now(); atomic.LoadInt32(&r.e.handover) != 0; {
+		if time.Since(t0) > timeout {
+			return false
+		}
+		time.Sleep(200 * time.Microsecond)
+	}
 	select {
 	case b, ok := <-g.chA:
 		if !ok {
@@ -594,6 +602,9 @@ func (r *run) quiesce() bool {
 			}
 			if !r.e.release(w, false, stuckWait) {
 				r.stuck = "driver call did not finish"
+				if os.Getenv("VERIF_DEBUG_STACKS") != "" {
+					_ = pprof.Lookup("goroutine").WriteTo(os.Stderr, 2)
+				}
 				return false
 			}
 			reset()
